@@ -97,7 +97,7 @@ var models = map[string]Model{
 	"(*encoding/base64.Encoding).EncodeToString": {Pure: true, Why: "standard library: reads its arguments only"},
 	"(*encoding/base64.Encoding).DecodeString":   {Pure: true, Why: "standard library: reads its arguments only"},
 	"slices.Contains":                            {Pure: true, Why: "standard library: reads its arguments only"},
-	"slices.Index":                               {Pure: true, Why: "standard library: reads its arguments only"},
+	"slices.Index":                               {Pure: true, Custom: modelSlicesIndex, Why: "slices docs: the index of the first occurrence of v in s, or -1: the result r satisfies -1 <= r < len(s)"},
 	"slices.Equal":                               {Pure: true, Why: "standard library: reads its arguments only"},
 	"fmt.Sprintln":                               {Pure: true, Why: "standard library: reads its arguments only"},
 	"math.Min":                                   {Pure: true, Why: "standard library: reads its arguments only"},
@@ -529,4 +529,34 @@ func modelValueKind(e *Engine, st *State, x *ssa.Call, args []AV) AV {
 		names = append(names, a.name())
 	}
 	return e.resultAV(st, x, "(reflect.Value).Kind("+strings.Join(names, ",")+")", nil)
+}
+
+// modelSlicesIndex: r = slices.Index(s, v) with -1 <= r < len(s).
+func modelSlicesIndex(e *Engine, st *State, x *ssa.Call, args []AV) AV {
+	var names []string
+	for _, a := range args {
+		names = append(names, a.name())
+	}
+	name := fmt.Sprintf("slices.Index(%s)#%s.%s@%s", strings.Join(names, ","), x.Parent().Name(), x.Name(), st.inst())
+	st.terms[name] = iset{{-1, maxI}}
+	res := AV{Kind: KLin, Term: name, Src: x}
+	if len(args) > 0 {
+		if l := e.lenTerm(st, args[0]); l.Kind == KLin && l.K == 0 {
+			st.atoms["lt("+name+","+l.Term+")"] = true
+		}
+	}
+	return res
+}
+
+// lookupModel finds the model of a callee by name; an instance of a generic
+// function ("slices.Index[[]string string]") uses the generic's entry.
+func lookupModel(name string) (Model, bool) {
+	if m, ok := models[name]; ok {
+		return m, true
+	}
+	if i := strings.IndexByte(name, '['); i > 0 && strings.HasSuffix(name, "]") && !strings.HasPrefix(name, "(") {
+		m, ok := models[name[:i]]
+		return m, ok
+	}
+	return Model{}, false
 }
